@@ -110,7 +110,7 @@ def run(ctx):
     quick = ctx.quick()
     cases = H.corpus_cases(PID)
     ncorpus = len(cases)
-    for _ in range(230 if quick else 3000):
+    for _ in range(450 if quick else 3000):
         cases.append(gen_case(ctx.rng, quick))
     ctx.log('running %d constructor programs / edit histories on the implementation' % len(cases))
     results = H.run_cases(cases, pid=PID, content=True)
